@@ -356,7 +356,11 @@ def monitorC05 (script : List Cmd) (iters : List Iter) (d : Nat) : Option String
             | .srv _ _ _ h => ds.any fun x => live x && (x.r.ty == 1 || x.r.ty == 28) && lower x.r.name == lower h
             | _ => false
           if ptrLive && !srvs.isEmpty && addrLive && !ifaceChange then
-            some s!"removed-while-PTR-SRV-and-address-live inst={hexOfBytes f} t={t}"
+            -- known finding D43: an instance with several live SRV records (different targets):
+            -- the daemon looks at the first usable one only
+            let targets := (srvs.map fun s => s.r.rdata).eraseDups
+            if targets.length ≥ 2 then some s!"removed-while-another-SRV-and-its-address-live inst={hexOfBytes f} t={t}"
+            else some s!"removed-while-PTR-SRV-and-address-live inst={hexOfBytes f} t={t}"
           else none
         | _, _ => some "unparsable-removed-event"
       | _ => none
@@ -404,7 +408,47 @@ def monitorC05 (script : List Cmd) (iters : List Iter) (d : Nat) : Option String
           if ds.any (fun x => x.k ≥ k && x.k ≤ e.1) then none
           else some s!"ServiceResolved-after-ServiceRemoved-without-new-records inst={instH}"
       | _ => none
-  unsound <|> late <|> noisy
+  -- completeness at the expiry of the last SRV record: an instance that a still open browse has
+  -- reported, whose PTR stays alive, loses its ONLY SRV record by plain TTL expiry (no goodbye,
+  -- no flush, no verify, never refreshed): ServiceRemoved is owed at that moment
+  let verifiedAny := calls.any fun ((c, _) : Cmd × Nat) => match c with | .verify d' .. => d' == d | _ => false
+  let tEnd := (iters.getLast?.map (·.now)).getD 0
+  let srvGone := if verifiedAny || ifaceChange then none else ds.findSome? fun x =>
+    match x.r.rdata with
+    | .srv .. =>
+      let f := x.r.name
+      -- the only SRV record ever delivered for this instance (any copies of it included)
+      let others := ds.any fun y => y.r.ty == 33 && lower y.r.name == lower f && !sameKey y.r x.r
+      let lastCopy := !(ds.any fun y => sameKey y.r x.r && (y.k > x.k))
+      let e := x.t + 1000 * x.r.ttl
+      let taken := forUs (browsedAt calls d x.k) x
+      if others || !lastCopy || x.r.ttl ≤ 1 || !taken || e + 1500 > tEnd then none else
+      -- a browse channel that found the instance before and is open until after `e`
+      let chans := calls.filterMap fun ((c, k0) : Cmd × Nat) =>
+        match c with
+        | .browse d' ch ty false =>
+          let found := (chanEvents iters d ch).any fun ev => ev.2.headD "" == "found" && ev.2[2]? == some (hexOfBytes f) &&
+            ((itArr[ev.1]?.map (·.now)).getD 0) < e
+          let closed := (chanEvents iters d ch).any (fun ev => ev.2.headD "" == "stopped") ||
+            calls.any fun ((c', k') : Cmd × Nat) =>
+              match c' with
+              | .browse d'' _ ty' _ => d'' == d && ty' == ty && k' > k0
+              | .stopBrowse d'' ty' => d'' == d && ty' == ty
+              | .shutdown d'' _ => d'' == d
+              | _ => false
+          if d' == d && found && !closed then some (ch, ty) else none
+        | _ => none
+      chans.findSome? fun ((ch, ty) : Nat × BList) =>
+        -- its PTR (for that type) is alive well beyond `e`
+        let ptrAlive := ds.any fun y => y.r.ty == 12 && y.r.name == ty && (match y.r.rdata with | .ptr g => lower g == lower f | _ => false) &&
+          decide (e + 2000 < validUntil ds y (iters.length))
+        -- removed already (for another reason) or at the expiry
+        let removedBy := (chanEvents iters d ch).any fun ev =>
+          ev.2.headD "" == "removed" && ev.2[2]? == some (hexOfBytes f) && ((itArr[ev.1]?.map (·.now)).getD 0) ≤ e + 1000
+        if ptrAlive && !removedBy then some s!"no-ServiceRemoved-when-the-last-SRV-ran-out inst={hexOfBytes f} expiry={e}"
+        else none
+    | _ => none
+  unsound <|> late <|> noisy <|> srvGone
 
 /-! ### C17 -/
 
@@ -440,7 +484,12 @@ def monitorC17 (script : List Cmd) (iters : List Iter) (d : Nat) : Option String
                 ipOf x.r == some a.ip && decide (t ≤ validUntil ds x k) &&
                 a.ifs.all fun ((_, idx) : BList × Nat) => ds.any fun y => y.k ≤ k && y.ifi == idx && sameKey y.r x.r)
           match bad with
-          | some a => some s!"AddressesFound-lists-address-not-live-or-wrong-interface ip={hexOfBytes a.ip} t={t}"
+          | some a =>
+            -- known finding D44: on an iteration that the scheduler ran late (the script moved the
+            -- clock by hand) an address that ran out meanwhile is listed once more before it is removed
+            if script.any (fun c => match c with | .now _ => true | _ => false) then
+              some s!"AddressesFound-lists-expired-address-on-late-iteration ip={hexOfBytes a.ip} t={t}"
+            else some s!"AddressesFound-lists-address-not-live-or-wrong-interface ip={hexOfBytes a.ip} t={t}"
           | none => if addrs.isEmpty then some "AddressesFound-empty" else none
         else
           -- some record of that address must have run out by now
